@@ -652,7 +652,7 @@ Qed.
 Definition with_multi (b : bool) (i : input) : input :=
   {| i_impl := i_impl i; i_render := i_render i; i_resp := i_resp i;
      i_err := match i_err i with
-              | Some e => Some {| e_status := e_status e; e_multi := b; e_msg := e_msg e; e_buried := e_buried e |}
+              | Some e => Some {| e_status := e_status e; e_multi := b; e_msg := e_msg e; e_buried := e_buried e; e_timeout := e_timeout e |}
               | None => None end;
      i_ttl := i_ttl i; i_ctx_done := i_ctx_done i; i_errf := i_errf i; i_ver := i_ver i;
      i_ctx_errs := i_ctx_errs i |}.
@@ -663,7 +663,7 @@ Definition with_impl (im : impl) (i : input) : input :=
 
 Lemma multi_irrelevant b i : handler (with_multi b i) = handler i.
 Proof.
-  destruct i as [im rd rs er ttl cd ef ver ce]. destruct er as [[es em msg eb]|]; reflexivity.
+  destruct i as [im rd rs er ttl cd ef ver ce]. destruct er as [[es em msg eb et]|]; reflexivity.
 Qed.
 
 Definition with_ctx_errs (l : list ctx_err) (i : input) : input :=
@@ -676,12 +676,12 @@ Proof. destruct i as [im rd rs er ttl cd ef ver ce]. reflexivity. Qed.
 Definition with_buried (b : option Z) (i : input) : input :=
   {| i_impl := i_impl i; i_render := i_render i; i_resp := i_resp i;
      i_err := match i_err i with
-              | Some e => Some {| e_status := e_status e; e_multi := e_multi e; e_msg := e_msg e; e_buried := b |}
+              | Some e => Some {| e_status := e_status e; e_multi := e_multi e; e_msg := e_msg e; e_buried := b; e_timeout := e_timeout e |}
               | None => None end;
      i_ttl := i_ttl i; i_ctx_done := i_ctx_done i; i_errf := i_errf i; i_ver := i_ver i;
      i_ctx_errs := i_ctx_errs i |}.
 Lemma buried_irrelevant b i : handler (with_buried b i) = handler i.
-Proof. destruct i as [im rd rs er ttl cd ef ver ce]. destruct er as [[es em msg eb]|]; reflexivity. Qed.
+Proof. destruct i as [im rd rs er ttl cd ef ver ce]. destruct er as [[es em msg eb et]|]; reflexivity. Qed.
 
 (* an error that only wraps a status error is answered with the translator's verdict *)
 Lemma wrapped_status i e n :
@@ -1070,3 +1070,33 @@ Proof.
   - apply mux_ops_refine.
   - apply mux_ops_refine.
 Qed.
+
+(* ---- timeout-typed errors, the stock translator, the hidden version ---- *)
+Definition with_timeout (b : bool) (i : input) : input :=
+  {| i_impl := i_impl i; i_render := i_render i; i_resp := i_resp i;
+     i_err := match i_err i with
+              | Some e => Some {| e_status := e_status e; e_multi := e_multi e; e_msg := e_msg e;
+                                  e_buried := e_buried e; e_timeout := b |}
+              | None => None end;
+     i_ttl := i_ttl i; i_ctx_done := i_ctx_done i; i_errf := i_errf i; i_ver := i_ver i;
+     i_ctx_errs := i_ctx_errs i |}.
+Lemma timeout_irrelevant b i : handler (with_timeout b i) = handler i.
+Proof. destruct i as [im rd rs er ttl cd ef ver ce]. destruct er as [[es em msg eb et]|]; reflexivity. Qed.
+
+(* an error without a status of its own under the stock translator: 500, timeout or not *)
+Lemma stock_translator_500 i e :
+  i_resp i = None -> i_err i = Some e -> e_status e = None -> i_errf i = stock_translator e ->
+  exists o, handler i = Reply o /\ o_status o = 500%Z.
+Proof.
+  intros Hr He Hs Hf.
+  assert (He' : eff_err i = Some e) by (unfold eff_err; rewrite He; reflexivity).
+  destruct (error_status_500 i e Hr He' Hs Hf) as (o & H & S & _). eauto.
+Qed.
+
+Lemma version_value_nonempty build hide : build <> "" -> version_value build hide <> "".
+Proof. unfold version_value. destruct hide; [discriminate|auto]. Qed.
+
+Lemma version_shown build hide i o :
+  i_ver i = version_value build hide -> handler i = Reply o ->
+  exists rest, o_version o = version_value build hide :: rest.
+Proof. intros <- H. apply version_header. exact H. Qed.
